@@ -1,3 +1,46 @@
+import Chiritori.Lemmas.Tokenizer
 import Chiritori.Spec.Holds
+/-
+  C08 — Tags are recognised wherever they occur (leftmost-shortest delimiter match).
+
+  Full statement: `Statement` (tokenizer = textbook scan on kinds and values, for all sources and all
+  non-empty delimiters).  It is FALSE of the current code for every multi-character delimiter
+  (known finding D4): `c08_negation_D4` proves the negation on concrete witnesses.
+  Proved so far: the witnesses of the negation; the partial theorems (single-character delimiters: all
+  sources; any delimiters: WellDelimited sources) are stated in Props/C08Partial.lean.
+-/
 namespace Chiritori.Props.C08
+open Chiritori Chiritori.Spec
+
+def Statement : Prop :=
+  ∀ (src ds de : List Char), ds ≠ [] → de ≠ [] → c08Holds src ds de (tokenize src ds de) = true
+
+/-- D4: a failed partial delimiter match is not restarted. -/
+theorem c08_negation_D4 : ¬ Statement := by
+  intro h
+  have := h "//* <rm a> */x/* </rm> */".toList "/* <".toList "> */".toList (by decide) (by decide)
+  revert this
+  decide +kernel
+
+/-- the same defect for the other multi-character pairs named in the property -/
+theorem c08_negation_D4_html :
+    c08Holds "<!-- <t>> -->".toList "<!-- <".toList "> -->".toList
+      (tokenize "<!-- <t>> -->".toList "<!-- <".toList "> -->".toList) = false := by decide +kernel
+
+theorem c08_negation_D4_dashes :
+    c08Holds "/// --x-- //".toList "// --".toList "-- //".toList
+      (tokenize "/// --x-- //".toList "// --".toList "-- //".toList) = false := by decide +kernel
+
+theorem c08_negation_D4_aab :
+    c08Holds "aaabxbba".toList "aab".toList "bba".toList
+      (tokenize "aaabxbba".toList "aab".toList "bba".toList) = false := by decide +kernel
+
+/-- ... while for the same sources the textbook scan does find the tag -/
+example : textbook "aaabxbba".toList "aab".toList "bba".toList
+    = [(.text, ['a']), (.element, "aabxbba".toList)] := by decide +kernel
+
+/-- and single-character delimiters are fine on the analogous input -/
+example : c08Holds "<<a>>".toList "<".toList ">".toList (tokenize "<<a>>".toList "<".toList ">".toList) = true := by
+  decide +kernel
+
 end Chiritori.Props.C08
